@@ -689,14 +689,16 @@ func (e *Env) sel(x *ESel) Val {
 		}
 		cur := v
 		curT := pt.Elem()
+		var curPl *Place = v.Place
 		for k, i := range path {
 			sst := curT.Underlying().(*types.Struct)
-			pl := g.fieldPlace(cur.S, curT, i)
+			pl := g.fieldPlaceFrom(curPl, cur.S, curT, i)
 			ft := sst.Field(i).Type()
 			if k == len(path)-1 {
 				return g.loadAt(pl, ft, e.loadHeap())
 			}
 			cur = Val{S: pl.Ptr, Sort: "Ptr", GT: types.NewPointer(ft)}
+			curPl = pl
 			curT = ft
 		}
 	}
